@@ -604,6 +604,19 @@ def r3_codec_agreement(run):
     run.use(d)
     for c in _codec_calls(d, 'decode'):
         dec[(d, c)] = _codec_of(c)
+    if enc and not dec:
+        # the deserializer hands the raw body bytes to loads(): json.loads(bytes)
+        # sniffs UTF-8/16/32 (+BOM) and decodes with surrogatepass, so bodies
+        # that are not strict UTF-8 are accepted (or blow up later) instead of
+        # yielding the 400-class malformed-media error
+        data_param = d.params()[1] if len(d.params()) > 1 else None
+        raw = [c for c in walk_self(d.node) if isinstance(c, ast.Call) and _is_attr_of(c.func, 'self', '_loads')
+               and c.args and isinstance(c.args[0], ast.Name) and c.args[0].id == data_param]
+        if raw:
+            run.fail('JSON bytes are passed to loads() undecoded: the library then guesses the encoding (UTF-16/32, BOM, surrogatepass) '
+                     'instead of the strict UTF-8 the serializer writes', d, raw[0],
+                     runtime_witness="a UTF-16 body is accepted with 200; b'[\"\\xed\\xa0\\x80\"]' deserializes to a lone surrogate and echoing it gives a 500")
+            return
     if not enc or not dec:
         raise AnchorError('JSONHandler: encode()/decode() of the text form not found (%d/%d)' % (len(enc), len(dec)))
     for (f, c), (codec, errors) in sorted(enc.items(), key=lambda kv: kv[0][0].qual):
